@@ -77,11 +77,12 @@ UNITS = [
     ("control", "% if True:\n  inner\n% endif\n"), ("def", '<%def name="p{N}()">\n  body\n</%def>\n'),
     ("texttag", "<%text>\n% raw ${x}\n</%text>\n"), ("loop", "% for i{N} in range(2):\n${i{N}}\n% endfor\n"),
     ("calldef", '<%def name="c{N}()">\nx\n</%def>\n${c{N}()}\n'), ("modblock", "<%!\n    m{N} = 1\n\n    m{N}b = 2\n%>\n"),
+    ("formfeed", "page\x0cbreak\n"), ("unicode-linesep", "a\u2028b\x85c\x0bd\n"),
 ]
 PY_BEARING = {"block", "def", "multiexpr", "control", "loop", "calldef", "modblock"}
 
 RAISERS = ["expr", "expr-multiline", "block-line", "module-func", "control-cond", "attr-expr", "filter", "in-def", "block-oneline",
-           "for-iterable-loop", "for-iterable", "while-cond", "def-call-arg"]
+           "for-iterable-loop", "for-iterable", "while-cond", "def-call-arg", "module-func-not-last"]
 
 
 def raiser(kind, k):
@@ -97,6 +98,10 @@ def raiser(kind, k):
     if kind == "module-func":
         # the function is defined in a module block placed at the construct; it is called one line after the block
         return "<%!\n    def helper9():\n" + "        z = 1\n" * k + "        boom()\n%>\n${helper9()}\n", 2 + k, [4 + k]
+    if kind == "module-func-not-last":
+        # several <%! %> blocks; the raising function lives in the first one
+        return ("<%!\n    def helper8():\n" + "        z = 1\n" * k + "        boom()\n%>\nbetween\n<%!\n    y8 = 2\n%>\n<%!\n    y9 = 3\n%>\n${helper8()}\n",
+                2 + k, [11 + k])
     if kind == "control-cond":
         return "% if boom():\nx\n% endif\n", 0, []
     if kind == "for-iterable-loop":
@@ -134,7 +139,7 @@ def make_set(subject, rkind):
     inner = pre + rtext + "tail\n"
     base_line = pre.count("\n") + 1
     inner_frames = [base_line + e for e in extra] + [base_line + rline]
-    if rkind == "module-func":
+    if rkind in ("module-func", "module-func-not-last"):
         inner_frames = [base_line + extra[0], base_line + rline]
     pad = "pad\n" * subject["outer_pad"]
     shape = subject["shape"]
@@ -283,6 +288,12 @@ def check_traceback(case, ev=None):
     for r, rw in zip(rt.records, raw):
         if r[4] is None and (r[0], r[1], r[2]) != (rw.filename, rw.lineno, rw.name):
             raise Failure(case, "python frame changed: %r vs %r" % (r[:3], rw) + tag, "python-frame-changed")
+    # the source line shown for the innermost template frame is that physical line of its template (lines end at "\n" only)
+    last = [r for r in rt.records if r[4] is not None][-1]
+    phys = srcs[want[-1][0]].split("\n")[want[-1][1] - 1]
+    if last[6] != phys:
+        raise Failure(case, "innermost template frame shows the line text %r, line %d of the template is %r" % (last[6], want[-1][1], phys) + tag,
+                      "frame-line-text")
     if rt.lineno != want[-1][1] or rt.source != srcs[want[-1][0]]:
         raise Failure(case, "RichTraceback.lineno/source = %r/%r..., expected line %d of %s" % (rt.lineno, (rt.source or "")[:40], want[-1][1], want[-1][0]) + tag,
                       "richtraceback-lineno")
